@@ -4,7 +4,7 @@ from genlib import *
 
 LEAN_MODULES = ["MpirProofs.Props.C18"]
 THEOREMS = ["Mpir.Printf.snprintf_bound", "Mpir.Printf.doprnti_eq_c99", "Mpir.Printf.doprnti_eq_c99_string",
-            "Mpir.Printf.asprintf_block", "Mpir.Printf.doprnti_big_layout", "Mpir.Printf.parser_total_partial", "Mpir.Scanf.scan_print_roundtrip_partial"]
+            "Mpir.Printf.asprintf_block", "Mpir.Printf.doprnti_big_layout", "Mpir.Printf.doprnti_big_layout_length", "Mpir.Printf.parser_total_partial", "Mpir.Scanf.scan_print_roundtrip_partial"]
 TRUSTED = ["hand-written models lean/Mpir/Model/Printf.lean of printf/doprnt.c, doprnti.c, doprntf.c, snprntffuns.c, asprntffuns.c, vasprintf.c and lean/Mpir/Model/Scanf.lean of scanf/doscan.c (tied by correspondence on every run)",
            "the C99 specification function cFormatCore/cprintfInt is written from ISO C99 7.19.6.1 and validated against glibc's snprintf on every run (glibc column of the gmp_snprintf_* ops)",
            "harness passes variable arguments as twelve 64-bit slots (x86-64 SysV ABI)"]
